@@ -100,6 +100,19 @@ def handle (ss : Session) (line : String) : Session × List String :=
         let sol := buildSolution ss.st (envOf ints bools) cal
         let ls := sol.print
         (ss, ("(n " ++ toString ls.length ++ ")") :: ls)
+    | .list [.atom "eval", .list cfgl, .list vals] =>
+        -- EVAL channel: the truth value, under the given interpretation, of every formula `initialize` emits
+        -- (computable evaluator `evalB`, which `satB_sound` relates to the semantics the theorems use)
+        let cfg := parseConfig cfgl
+        let ints := vals.filterMap (fun v => match v with
+          | .list [n, x] => match n.asStr?, x.asInt? with | some n, some x => some (n, x) | _, _ => none
+          | _ => none)
+        let bools := vals.filterMap (fun v => match v with
+          | .list [n, x] => match n.asStr?, x.asBool? with | some n, some x => some (n, x) | _, _ => none
+          | _ => none)
+        let ρ := envOf ints bools
+        let fs := initFmls cfg ss.st
+        (ss, ["(n 1)", " ".intercalate (fs.map (fun f => if f.evalB ρ then "1" else "0"))])
     | .list [.atom "spec", .atom which] =>
         let fs := match which with
           | "C01" => specC01 ss.st
